@@ -7,6 +7,7 @@ vacuous).
 """
 import contextlib
 import io
+import os
 
 import numpy as np
 
@@ -182,6 +183,24 @@ class FileStore:
 
     def open(self, name, mode='r', *a, **k):
         return RecordingFile(self, name, mode)
+
+    def replace(self, src, dst, *a, **k):
+        """os.replace / os.rename on the in-memory files (a writer that saves through a scratch name and renames
+        it on close); names the store does not know go to the real function."""
+        if src in self.data:
+            self.data[dst] = self.data.pop(src)
+            self.ops[dst] = self.ops.pop(src, [])
+            return None
+        return self._real_replace(src, dst, *a, **k)
+
+    _real_replace = staticmethod(os.replace)
+
+    @contextlib.contextmanager
+    def installed(self, module):
+        """module.open, os.replace and os.rename answered by this store."""
+        with patched(module, 'open', self.open), patched(os, 'replace', self.replace), \
+                patched(os, 'rename', self.replace):
+            yield self
 
     @staticmethod
     def image(ops, upto, tail_bytes=None):
